@@ -16,7 +16,7 @@ ASSUMPTIONS = [
     "real disk I/O and binascii are modelled (VFS, abstract hex pair); the on-disk Bloom filter is C11's subject",
 ]
 BOUNDS = {
-    "quick": "Bloom (1,.5)->2 bits, (3,.28)->8/2, (3,.2)->11/3, (5,.3)->13/2, (5,.22)->16/2; counting Bloom 2, 3, 6 cells; expanding/rotating 1..3 sub-filters (est 2, one-hash geometry; 8- and 16-bit two-hash sub-filters); count-min family 1x1, 2x2, 3x2 (mean-min from width 2); cuckoo / counting cuckoo capacity 1..3 x bucket 1..2, every occupancy shape; channels bytes, __bytes__, file object, file path (+ hex for the Bloom family)",
+    "quick": "Bloom (1,.5)->2 bits, (3,.28)->8/2, (3,.2)->11/3, (5,.3)->13/2, (5,.22)->16/2; counting Bloom 2, 3, 6 cells; expanding/rotating 1..3 sub-filters (est 2, one-hash geometry; 8- and 16-bit two-hash sub-filters); count-min family 1x1, 2x2, 3x2 (mean-min from width 2); cuckoo / counting cuckoo capacity 1..3 x bucket 1..2, every occupancy shape; channels bytes, __bytes__, file object, file path (+ hex for the Bloom family); a SECOND export (every read-only export called once, then an add and the counter set back) on Bloom 8 / 11 bits and counting Bloom 3 / 6 cells, every channel",
     "thorough": "adds Bloom (10,.05)->63/4, counting Bloom 11 cells, count-min 3x3",
     "outside": "larger geometries; real file systems; BloomFilterOnDisk (C11)",
 }
